@@ -151,7 +151,32 @@ class C10(Cfg):
                                 if e.lst.endswith(".u"):
                                     ok = any(x.date <= e.date and x.payload for x in uas.get(e.author, []))
                                     if not ok: rule33 = True
-                    if out == "err:date" and multi_date(src):
+                    # a group created by a key that is not admin of the room (possible at creation: a room without
+                    # admin entries): the live path accepts it, every importer refuses the group row
+                    def group_creator_not_admin():
+                        seen_groups, admins = set(), []
+                        for i2 in sorted(src):
+                            for e in entries[i2]:
+                                if e.lst == "adm": admins.append(e)
+                        for i2 in sorted(src):
+                            _, a2 = kv(ops[i2])
+                            for g in [x for x in a2.get("grp", "").split(",") if x]:
+                                if g in seen_groups: continue
+                                seen_groups.add(g)
+                                author, d2 = entries[i2][0].author if entries[i2] else None, int(a2["d"])
+                                if author is None:
+                                    from .roomlib import ident_of_site
+                                    author = ident_of_site(int(a2["s"]))
+                                best = None
+                                for e in admins:
+                                    if e.key == author and e.date <= d2 and (best is None or e.date >= best.date): best = e
+                                if not (best and best.payload): return True
+                        return False
+                    if out == "err:invalid-node" and not dst and group_creator_not_admin():
+                        res.append(("import-fails-group-created-by-non-admin",
+                                    "export of site %d refused by the fresh site %d (%s): a group of the room was created by a key that is not admin of the room"
+                                    % (fr, to, out)))
+                    elif out == "err:date" and multi_date(src):
                         res.append(("import-fails-newest-first-replay",
                                     "export of site %d refused by site %d (%s, receiver %s): some key has entries at two dates"
                                     % (fr, to, out, "fresh" if not dst else "holds an earlier version")))
